@@ -57,6 +57,10 @@ def corpus():
                              [["assign", "<p>s", C(5), []]]], pg.STEP]))
     add("logic", pg.P1([["if", ["expr", ["or", ["and", GT(S, C(2)), ["not", GT(S, C(5))]], ["cmp", "<=", T, C(0)]]],
                          [["assign", "<p>s", ADD(S, C(-1)), []]], None], pg.STEP]))
+    add("and_of_or", pg.P1([["if", ["expr", ["and", ["or", GT(S, C(2)), GT(T, C(10))], GT(DT, C(0.3))]],
+                             [["assign", "<p>s", ADD(S, C(-1)), []]], [["assign", "<p>s", ADD(S, C(1)), []]]],
+                            ["if", ["expr", ["or", ["and", GT(S, C(2)), GT(T, C(1))], ["not", ["or", GT(DT, C(0.3)), LT(S, C(0))]]]],
+                             [["assign", "<dt>", MUL(DT, C(0.5)), []]], None], pg.STEP]))
     add("power", pg.P1([["assign", "<p>s", ADD(["**", S, C(2)], ["**", ["**", DT, C(2)], C(3)]), []], pg.STEP]))
     add("array_loop", pg.P1([["assign", "n", C(3), []], ["assign", "a", ["call", "<builtin>array", [V("n")], {}], []],
                              ["assign", ["sub", "a", V("i")], ADD(MUL(V("i"), DT), S), [["i", C(0), V("n")]]],
@@ -246,6 +250,9 @@ class FGen:
             return C(rng.choice([0, 1, 2, -1, 3, 0.5, 2.5]))
         op = rng.choice(["+", "+", "*", "*", "/", "pow", "if", "min", "max"])
         a, b = self.scalar(sc, depth - 1), self.scalar(sc, depth - 1)
+        if op == "/":
+            # division by zero is outside the claim (gfortran rejects a constant zero denominator at compile time)
+            b = V(rng.choice(sc)) if rng.random() < 0.5 else C(rng.choice([1, 2, -1, 0.5, 2.5]))
         if op == "pow":
             return ["**", a, C(2)]
         if op == "if":
@@ -305,7 +312,7 @@ class FGen:
                     b2 = [rng.randint(1, max(1, budget[0]))]
                     budget[0] -= min(b2[0], budget[0])
                     els = self.ops(sc, ut, b2, depth + 1, phases)
-                out.append(["if", ["expr", self.cond(sc, 1)], body, els])
+                out.append(["if", ["expr", self.cond(sc, rng.choice([1, 2, 2]))], body, els])
             elif r < 0.9:
                 out.append(["yield", V(rng.choice(ut)), "y", rng.choice([T, ADD(T, DT)]), rng.choice(["final", "mid"])])
             elif r < 0.95 and depth > 0:
